@@ -12,6 +12,7 @@ import (
 	"net"
 	"strconv"
 	"strings"
+	"sync"
 	"testing"
 	"time"
 )
@@ -208,6 +209,12 @@ func vfRawNet(s string, i int) (net.IPNet, bool) {
 //	ver <hexDER|absent> <hexaddr>   extension value inside a real signed certificate
 //	                           -> peer=… parse=… restricted=… verify=… extract=…
 //	mint <nets> <hexaddr>      GenIPRestrictedX509Cert, parse, read    -> peer=… mint=ok ext=<hexDER> parse=… …
+//	cmint <rounds> <nets>@<hexaddr> <nets>@<hexaddr> …
+//	                           one request per worker, all workers minting AT THE SAME TIME (released together, <rounds>
+//	                           times, two mints per release); every certificate is parsed and read like `mint`
+//	                           -> workers=<n> ;; <distinct results of worker 0, " || "-separated> ;; <worker 1> …
+//	                           (a result is a `mint` output line; on a tree where requests do not influence each other every
+//	                           worker has exactly one distinct result)
 func TestVerifC11Lib(t *testing.T) {
 	io := vfOpen(t)
 	defer io.close()
@@ -310,6 +317,97 @@ func TestVerifC11Lib(t *testing.T) {
 			}
 			value := vfExtValue(cert)
 			io.emit("peer=%s mint=ok ext=%s parse=%s %s", vfPeerClass(string(addr)), vfHexB(value), vfParseExt(value), vfReaders(cert, string(addr)))
+		case f[0] == "cmint" && len(f) >= 4:
+			rounds, err := strconv.Atoi(f[1])
+			if err != nil || rounds < 1 || rounds > 100000 {
+				io.emit("bad-op")
+				continue
+			}
+			type worker struct {
+				nets []net.IPNet
+				addr string
+				seen []string
+			}
+			var ws []*worker
+			bad := false
+			for _, spec := range f[2:] {
+				parts := strings.Split(spec, "@")
+				if len(parts) != 2 {
+					bad = true
+					break
+				}
+				addr, ok := vfUnhexB(parts[1])
+				if !ok {
+					bad = true
+					break
+				}
+				w := &worker{addr: string(addr)}
+				if parts[0] != "-" {
+					for i, s := range strings.Split(parts[0], ",") {
+						nb, ok := vfRawNet(s, i)
+						if !ok {
+							bad = true
+							break
+						}
+						w.nets = append(w.nets, nb)
+					}
+				}
+				ws = append(ws, w)
+			}
+			if bad {
+				io.emit("bad-op")
+				continue
+			}
+			mintOnce := func(w *worker) (res string) {
+				defer func() {
+					if p := recover(); p != nil {
+						res = "peer=" + vfPeerClass(w.addr) + " mint=PANIC"
+					}
+				}()
+				// every worker gets its own copy of the request's list, as every HTTP request parses its own
+				nets := append([]net.IPNet(nil), w.nets...)
+				der, err := GenIPRestrictedX509Cert("role1", &ca.leaf.PublicKey, ca.cert, ca.key, nets, time.Hour, nil, nil)
+				if err != nil {
+					return fmt.Sprintf("peer=%s mint=err", vfPeerClass(w.addr))
+				}
+				cert, err := x509.ParseCertificate(der)
+				if err != nil {
+					return "cert-error parse"
+				}
+				if cert.Subject.CommonName != "role1" || cert.CheckSignatureFrom(ca.cert) != nil {
+					return "cert-error identity/signature"
+				}
+				value := vfExtValue(cert)
+				return fmt.Sprintf("peer=%s mint=ok ext=%s parse=%s %s", vfPeerClass(w.addr), vfHexB(value), vfParseExt(value), vfReaders(cert, w.addr))
+			}
+			for r := 0; r < rounds; r++ {
+				start := make(chan struct{})
+				var wg sync.WaitGroup
+				for _, w := range ws {
+					wg.Add(1)
+					go func(w *worker) {
+						defer wg.Done()
+						<-start
+						for k := 0; k < 2; k++ {
+							res := mintOnce(w)
+							known := false
+							for _, s := range w.seen {
+								known = known || s == res
+							}
+							if !known && len(w.seen) < 4 {
+								w.seen = append(w.seen, res)
+							}
+						}
+					}(w)
+				}
+				close(start)
+				wg.Wait()
+			}
+			out := []string{fmt.Sprintf("workers=%d", len(ws))}
+			for _, w := range ws {
+				out = append(out, strings.Join(w.seen, " || "))
+			}
+			io.emit("%s", strings.Join(out, " ;; "))
 		default:
 			io.emit("bad-op")
 		}
